@@ -31,7 +31,7 @@ RULE = ("qubit and qutrit maps given by Choi matrices built from exact data by t
         "presentation: every call of a toqito function receives the same values in a freshly drawn presentation per array argument (C / Fortran / strided memory "
         "layout; real-valued Choi matrices as float64, integer-valued ones also as int64; real/complex pairs in both argument orders); the arrays handed over must "
         "be untouched afterwards; the main diamond_distance / channel_fidelity / completely_bounded_trace_norm call is repeated on the same objects for one qubit task in "
-        "three and must return the same value")
+        "four and must return the same value")
 ASSUMPTIONS = [
     "toqito computes with the float Choi matrices it is given; the instance certified is their exact dyadic image (J1 - J2 is the float difference, exact image taken after the subtraction)",
     "tolerance 2e-5 on picos/CVXOPT-solved values (completely_bounded_trace_norm and callers); 1e-3 on channel_fidelity: SCS is called with eps=1e-7 but stops at its iteration limit "
@@ -425,7 +425,7 @@ class Presenter:
         name = getattr(fn, "__name__", str(fn))
         st, v = _call(fn, *args, **k)
         why = guard.modified()
-        if why is None and again and st == "ok" and prng is not None and int(prng.integers(3)) == 0:
+        if why is None and again and st == "ok" and prng is not None and int(prng.integers(4)) == 0:
             st2, v2 = _call(fn, *args, **k)   # the SAME objects again
             why = guard.modified()
             self.res.count("repeat-call/" + name)
